@@ -87,6 +87,10 @@ def _eval_expref_text(text, v):
     if e == 'abs(@)':
         return ('ERR', 'invalid-type') if jtype(v) != 'number' else abs(v)
     if e == 'to_array(@)': return v if isinstance(v, list) else [v]
+    if e == 'a[0:1]':
+        x = v.get('a') if isinstance(v, dict) else None
+        return x[0:1] if isinstance(x, list) else None
+    if e == '[0:1]': return v[0:1] if isinstance(v, list) else None
     if e == 'nosuch(@)': return ('ERR', 'unknown-function')
     raise ValueError(text)
 
